@@ -146,6 +146,11 @@ func ruleC09_3(c *Ctx, r *Rep) {
 			}
 		}
 	}
+	for name := range wakeFns {
+		if w := c.Fn("actions." + name); w != nil {
+			r.noValueUse(c, "C09.3", w)
+		}
+	}
 	r.Floor("C09.3:hooks", len(hooks), 4)
 	_ = n
 }
